@@ -221,6 +221,10 @@ func init() {
 				"inverse of a zero operand is free by design (hasInv=0) and excluded",
 			},
 			MinEvents: 100000,
+			Setup: func(ctx *fw.Ctx) error {
+				engine.SetRealHints(false) // large must-reject sweep: native fast path for honest hints
+				return nil
+			},
 			Gen: func(ctx *fw.Ctx) []fw.Case {
 				var cs []fw.Case
 				shadowInst := []string{"A_testdata"}
